@@ -310,5 +310,4 @@ def run(rep: common.Report, tier: str, seed: int):
 
 
 def replay(data):
-    print('replay: rerun bin/check C16 quick with VERIF_SEED=%s' % data.get('seed'))
-    return 1
+    return common.replay_by_rerun('C16', data, run)
